@@ -17,6 +17,10 @@ def use_repo():
     src = os.path.join(REPO, "src")
     if src not in sys.path:
         sys.path.insert(0, src)
+    if "nuspacesim" not in sys.modules:
+        # the C++ stepping kernel is rebuilt from the working tree's zsteps.cpp and served in place of the prebuilt extension
+        from . import zshim
+        zshim.prepare(REPO)
     import nuspacesim  # noqa: F401
 
     got = os.path.realpath(os.path.dirname(nuspacesim.__file__))
